@@ -254,7 +254,8 @@ def parse_fun_of_strings(txt):
 # harness runs + trace validation
 
 CRASH_SIGNALS = {-11: "SIGSEGV", -7: "SIGBUS", -6: "SIGABRT", -4: "SIGILL",
-                 98: "HANG (a call into the code under test never returned: no progress for 120 s outside the scheduler's control)"}
+                 98: "HANG (a call into the code under test never returned: no progress for 120 s outside the scheduler's control)",
+                 101: "PANIC (the code under test panicked outside any recorded API call: while the object of the scenario was being set up, observed at the end of a run, or torn down)"}
 
 
 def _harness_once(exe, d, scenarios, name, timeout):
@@ -563,6 +564,7 @@ class Check:
             for cr in crashes:
                 # the process executing the real code died of a memory fault: no property holds on such an execution
                 what = "the real code never returned: %s, scenario %s" % (cr["signal"], cr["scenario"].get("id")) if str(cr["signal"]).startswith("HANG") else \
+                    "the real code panicked: %s, scenario %s" % (cr["signal"], cr["scenario"].get("id")) if str(cr["signal"]).startswith("PANIC") else \
                     "the real code crashed with %s while executing scenario %s (memory fault inside the code under test)" % (cr["signal"], cr["scenario"].get("id"))
                 self.violation(what,
                                {"scenario": cr["scenario"], "run": None, "events": [], "module": module, "consts": {k: tla_val(q) for k, q in consts.items()}, "invariant": "NoCrash", "crash": cr["signal"]})
